@@ -77,9 +77,16 @@ impl<'a> DeserializationContext<'a> {
         };
         self.region_stack.push(self.current);
         self.current = resolved_region;
+        #[cfg(feature = "verif-hooks")]
+        crate::verif::emit(crate::verif::Event::RegionPush {
+            start: self.current.start,
+            end: self.current.end,
+        });
     }
 
     pub(crate) fn pop_region(&mut self) -> InputRegion {
+        #[cfg(feature = "verif-hooks")]
+        crate::verif::emit(crate::verif::Event::RegionPop);
         let result = self.current.unresolve();
         self.current = self.region_stack.pop().unwrap();
         result
@@ -92,6 +99,11 @@ impl<'a> DeserializationContext<'a> {
 
 impl<'a> BinaryInput for DeserializationContext<'a> {
     fn read_u8(&mut self) -> Result<u8> {
+        #[cfg(feature = "verif-hooks")]
+        crate::verif::emit(crate::verif::Event::Read {
+            abs: self.current.start.wrapping_add(self.current.pos),
+            len: 1,
+        });
         if self.current.pos == self.current.end {
             Err(Error::InputEndedUnexpectedly)
         } else {
@@ -101,6 +113,11 @@ impl<'a> BinaryInput for DeserializationContext<'a> {
     }
 
     fn read_bytes(&mut self, count: usize) -> Result<&[u8]> {
+        #[cfg(feature = "verif-hooks")]
+        crate::verif::emit(crate::verif::Event::Read {
+            abs: self.current.start.wrapping_add(self.current.pos),
+            len: count,
+        });
         if self.current.pos + count > self.current.end {
             Err(Error::InputEndedUnexpectedly)
         } else {
@@ -111,6 +128,11 @@ impl<'a> BinaryInput for DeserializationContext<'a> {
     }
 
     fn skip(&mut self, count: usize) -> Result<()> {
+        #[cfg(feature = "verif-hooks")]
+        crate::verif::emit(crate::verif::Event::Skip {
+            abs: self.current.start.wrapping_add(self.current.pos),
+            len: count,
+        });
         if self.current.pos + count > self.current.end {
             Err(Error::InputEndedUnexpectedly)
         } else {
@@ -406,6 +428,12 @@ impl<'a, 'b, T: BinaryDeserializer + 'a> Iterator for DeserializerIterator<'a, '
     type Item = Result<T>;
 
     fn next(&mut self) -> Option<Self::Item> {
+        #[cfg(feature = "verif-hooks")]
+        crate::verif::emit(crate::verif::Event::IterNext);
+        #[cfg(feature = "verif-hooks")]
+        if matches!(self, DeserializerIterator::UnknownSize { .. }) {
+            crate::verif::emit(crate::verif::Event::Probe("seq_unknown_size_step"));
+        }
         match self {
             DeserializerIterator::InputEndedUnexpectedly => {
                 Some(Err(Error::InputEndedUnexpectedly))
